@@ -96,6 +96,9 @@ fn main() {
         use yuvxyb_math::verif as vh;
         vh::set_mode(if ctx.arg("hook-mode") == Some("record") { vh::Mode::Record } else { vh::Mode::Trap });
     }
+    if ctx.flag("property-budgets") {
+        mon_transfer::PROPERTY_BUDGETS.store(true, std::sync::atomic::Ordering::Relaxed);
+    }
     ev::init();
     ev::install_panic_hook();
     let t0 = std::time::Instant::now();
